@@ -104,6 +104,32 @@ fn opts_of(i: usize) -> run::Opts {
     }
 }
 
+/// `--expect-source`: every Ok result of an embedded-source call must carry `pub const SOURCE` = the input of THAT call
+/// (C16 under concurrent calls); mismatches are collected as (fnv of the input, option, what) and printed by main
+static EXPECT_SOURCE: std::sync::atomic::AtomicBool = std::sync::atomic::AtomicBool::new(false);
+static SOURCE_MISMATCHES: std::sync::Mutex<Vec<(u64, usize, String)>> = std::sync::Mutex::new(Vec::new());
+
+fn embedded_source(text: &str) -> Result<String, String> {
+    let fx = verif_harness::facts::extract(text).map_err(|e| format!("result does not read: {}", e.chars().take(80).collect::<String>()))?;
+    fn find<'a>(s: &'a Sexp, tag: &str) -> Option<&'a Sexp> {
+        if let Sexp::List(v) = s {
+            v.iter().find(|c| matches!(c, Sexp::List(cv) if matches!(cv.first(), Some(Sexp::Atom(a)) if a == tag)))
+        } else {
+            None
+        }
+    }
+    let src = find(&fx, "source").ok_or("no source fact")?;
+    let some = find(src, "some").ok_or("no SOURCE constant")?;
+    let lit = find(some, "literal").ok_or("SOURCE is not a string literal")?;
+    match lit {
+        Sexp::List(v) => match v.get(1) {
+            Some(Sexp::Str(s)) => Ok(s.clone()),
+            _ => Err("SOURCE literal without value".into()),
+        },
+        _ => Err("SOURCE literal without value".into()),
+    }
+}
+
 /// (hash, len, class) of the result bytes of one call.
 fn one(src: &str, opt: usize) -> (u64, usize, u8) {
     let (path, src): (Option<&str>, &str) = match src.strip_prefix('\u{1}').and_then(|r| r.split_once('\u{1}')) {
@@ -111,6 +137,16 @@ fn one(src: &str, opt: usize) -> (u64, usize, u8) {
         None => (None, src),
     };
     let o = run::run_real(src, path, opts_of(opt));
+    if let (run::Outcome::Ok(t), None, true) = (&o, path, EXPECT_SOURCE.load(std::sync::atomic::Ordering::Relaxed)) {
+        let what = match embedded_source(t) {
+            Ok(s) if s == src => None,
+            Ok(s) => Some(format!("SOURCE holds {} bytes that are not the {} bytes of this call's input (fnv {:016x} vs {:016x})", s.len(), src.len(), fnv(s.as_bytes()), fnv(src.as_bytes()))),
+            Err(e) => Some(e),
+        };
+        if let Some(w) = what {
+            SOURCE_MISMATCHES.lock().unwrap_or_else(|e| e.into_inner()).push((fnv(src.as_bytes()), opt, w));
+        }
+    }
     let (bytes, class) = match &o {
         run::Outcome::Ok(t) => (format!("ok:{t}"), 0u8),
         run::Outcome::Err(e) => {
@@ -156,6 +192,7 @@ fn parse_args() -> Args {
                 i += 1;
             }
             "--strace" => a.strace = true,
+            "--expect-source" => EXPECT_SOURCE.store(true, std::sync::atomic::Ordering::Relaxed),
             "--strace-limit" => {
                 a.strace_limit = args[i + 1].parse().unwrap();
                 i += 1;
@@ -677,11 +714,24 @@ fn main() {
         }
     }
 
+    let mut source_mismatches = 0u64;
+    {
+        let ms = SOURCE_MISMATCHES.lock().unwrap_or_else(|e| e.into_inner());
+        let mut seen = BTreeSet::new();
+        for (h, o, w) in ms.iter() {
+            let id = cases.iter().find(|(_, s)| fnv(s.as_bytes()) == *h).map(|(i, _)| i.clone()).unwrap_or_else(|| "?".into());
+            if seen.insert((id.clone(), *o)) {
+                source_mismatches += 1;
+                println!("{}", tagged("source-mismatch", vec![string(&id), nat(*o as u64), string(w)]).render());
+            }
+        }
+    }
     println!(
         "{}",
         tagged(
             "summary",
             vec![
+                tagged("source-checked", vec![boolean(EXPECT_SOURCE.load(std::sync::atomic::Ordering::Relaxed)), nat(source_mismatches)]),
                 tagged("cases", vec![nat(cases.len() as u64)]),
                 tagged("opts", a.opts.iter().map(|o| nat(*o as u64)).collect()),
                 tagged("pairs", vec![nat(base.len() as u64)]),
